@@ -54,6 +54,7 @@ class World:
     absent: List[str] = field(default_factory=list)   # sources that start absent
     notes: str = ""
     prefixes: List[list] = field(default_factory=list)  # histories leading to non-initial states the BFS also starts from
+    symlinks: Dict[str, str] = field(default_factory=dict)   # user-made symbolic links present from the start: name -> link text
 
     def to_json(self):
         return {"name": self.name, "sources": self.sources, "rules": {k: [repr(s) for s in v] for k, v in self.rules.items()},
